@@ -240,25 +240,28 @@ def inline_macros(prog: list, const_names: set[str] | None = None) -> tuple[list
                         body = _splice(body, p, a["blk"])
                         if p in _all_expr_names(body):
                             raise NoTwin("a code-block parameter is used as a value")
-                body = rename(body, ren)
+                # applications nested in the body are written out first: their bodies stand inside this application and see its
+                # parameters and labels (the body is text placed at the call site), so the renaming below covers them too
+                eager = {p for p, a in zip(m["ps"], st["as"]) if isinstance(a, list) and all(t[1] in consts for t in a if t[0] == "sym")}
+                inner_consts = (set(consts) - set(m["ps"])) | eager
+                early = early_names(rename(body, ren))      # incl. arguments of nested applications (evaluated at expansion when possible)
+                body = rename(go(body, inner_consts, depth + 1), ren)
+                early |= early_names(body)
                 binds: list = []
-                inner_consts = set(consts)
                 for p, a in zip(m["ps"], st["as"]):
                     if isinstance(a, dict):
                         continue
-                    names = [t[1] for t in a if t[0] == "sym"]
-                    if all(n in consts for n in names):
+                    if p in eager:
                         binds.append({"k": "assign", "n": ren[p], "e": a})
-                        inner_consts.add(ren[p])
                     else:
-                        if ren[p] in early_names(body):
+                        if ren[p] in early:
                             # the body needs the parameter before all labels exist (width inference, .if, bounds ...): with a
                             # deferred argument the original falls back to whatever outer name is visible then; a hygienic
                             # twin has no such name, so inlining is not defined here (the reference expansion judges it)
                             raise NoTwin("deferred argument used where a value is needed early")
                         stats["deferred_bindings"] += 1
                         binds.append({"k": "sym", "n": ren[p], "e": a})
-                out.append({"k": "block", "b": binds + go(body, inner_consts, depth + 1)})
+                out.append({"k": "block", "b": binds + body})
             elif k in ("block", "scope", "include"):
                 out.append(dict(st, b=go(st["b"], consts, depth + 1)))
             elif k == "if":
